@@ -43,6 +43,8 @@ def key_fn(ev, clause):
     if ev['ev'] == 'same':
         a = ev['runs']
         return '%s|%d_configs|%s' % (clause, len(a), 'single' if len(ev['strategies']) == 1 else 'multi')
+    if clause == 'Inv_C01_RejectReason':       # K = 1: the strategy that gave no reason is known
+        return '%s|%s|%s' % (clause, ev['strategies'][0], 'paired_end_input' if ev['mates'] == 2 else 'single_end_input')
     cfg = 'rej' if ev['hasRej'] else 'norej'
     n = ev['N'] if not ev['maxpairs'] else min(ev['N'], ev['maxpairs'])
     sign = lambda d: '-' if d < 0 else ('+' if d > 0 else '0')
@@ -176,6 +178,11 @@ def _selftest(c, events):
     def _(e):
         r = e['rej'][0]['mates'][0]['recs'][0]
         r['tags'] = [t for t in r['tags'] if t[0] != 'RR']
+
+    @mut('empty_reject_reason', 'Inv_C01_RejectReason')
+    def _(e):
+        for m in e['rej'][0]['mates']:
+            m['recs'][0]['tags'] = [[t[0], '' if t[0] == 'RR' else t[1]] for t in m['recs'][0]['tags']]
 
     @mut('yield_counter_plus_one', 'Inv_C01_Counters')
     def _(e):
